@@ -1,6 +1,6 @@
 (** The tail of push in each configuration of start gap / end gap. *)
 From Coq Require Import List ZArith Lia Bool Permutation.
-From V Require Import Gen.Params Lib.Hex FrameSorter.Model FrameSorter.InvCheck FrameSorter.ProofsBase
+From V Require Import Gen.Params Lib.Hex FrameSorter.Model FrameSorter.InvCheck FrameSorter.Spec FrameSorter.ProofsBase
   FrameSorter.ProofsLoops FrameSorter.ProofsFind FrameSorter.ProofsPop FrameSorter.ProofsInv
   FrameSorter.ProofsReinsert FrameSorter.ProofsTail.
 Import ListNotations.
